@@ -22,6 +22,8 @@ POCapped == \A cap \in Caps : /\ PO(x, y, cap) <= cap
                               /\ \A i \in 1..PO(x, y, cap) : x[i] = y[i]
 \* the order on numerals is the order on the integers they denote
 CmpIsIntegerOrder == DistCmp(t, x, y) = Sign(XorNat(t, y) - XorNat(t, x))
+\* the order is decided at the first bit where the two candidates differ, wherever the target lies
+CmpDecidedAtCommonPrefix == DistCmp(t, x, y) = DecidedAtCommonPrefix(t, x, y)
 CmpAntisymmetric == DistCmp(t, x, y) = 0 - DistCmp(t, y, x)
 CmpZeroIffEqual == (DistCmp(t, x, y) = 0) <=> (x = y)
 \* a higher proximity order means a smaller distance
